@@ -4,6 +4,7 @@
 package c02
 
 import (
+	"encoding/base64"
 	"net/url"
 	"time"
 
@@ -238,3 +239,51 @@ func run() {
 
 // ZZ_C02_binding
 func ZZ_C02_binding() { run() }
+
+// ZZ_C02_public_foreign: a registered PUBLIC client that did not receive the code presents it, identifying
+// itself through the Authorization header (Basic "c3:" – a public client has no secret) while the body's
+// client_id parameter is an arbitrary symbolic string (it may name the rightful client). The code is
+// redeemable only by the client it was issued to: the authenticated foreign client never obtains tokens,
+// nothing is issued, and the rightful redeem still succeeds afterwards.
+func ZZ_C02_public_foreign() {
+	wd := world.New(world.Options{})
+	wd.Store.Clients["c3"] = &fosite.DefaultClient{ID: "c3", Public: true,
+		GrantTypes: []string{"authorization_code", "refresh_token"}, ResponseTypes: []string{"code"},
+		RedirectURIs: []string{"https://c1.example/cb"}, Scopes: []string{"offline", "photos", "mail", "openid"},
+		Audience: []string{"https://api.example/v1"}}
+	code, g := authorize(wd)
+	at0, rt0 := stored(wd)
+	bodyID := zz.StringEx("body_client_id", 4, " ")
+	form := url.Values{
+		"grant_type":   {"authorization_code"},
+		"code":         {code},
+		"redirect_uri": {g.redirect},
+	}
+	if bodyID != "" {
+		form.Set("client_id", bodyID)
+	}
+	r := world.Post(form)
+	if zz.Choice("transport", 2) == 0 {
+		r.Header.Set("Authorization", "Basic "+base64.StdEncoding.EncodeToString([]byte("c3:")))
+		zz.Cover("public-foreign:basic-header", true)
+	} else {
+		// identified through the body only: then the body names c3 itself
+		form.Set("client_id", "c3")
+		zz.Cover("public-foreign:body", true)
+	}
+	ar, err := wd.Provider.NewAccessRequest(wd.Ctx, r, world.NewSession(""))
+	var resp fosite.AccessResponder
+	if err == nil {
+		resp, err = wd.Provider.NewAccessResponse(wd.Ctx, ar)
+	}
+	zz.Observe("attempt.err", world.ErrName(err))
+	// whoever fosite authenticated, it was not the client the code was issued to (c1 is confidential and
+	// no secret of c1 was presented)
+	zz.Assert(err != nil && resp == nil, "a foreign public client never redeems another client's code")
+	at1, rt1 := stored(wd)
+	zz.Assert(at1 == at0 && rt1 == rt0, "a refused attempt issues nothing")
+	zz.Cover("public-foreign:refused", err != nil)
+	rform := url.Values{"grant_type": {"authorization_code"}, "code": {code}, "redirect_uri": {g.redirect}}
+	_, err2 := wd.TokenAs("c1", world.Secret1, rform)
+	zz.Assert(err2 == nil, "a refused attempt leaves the code usable by its rightful holder")
+}
